@@ -872,6 +872,15 @@ class SymCtx(BaseCtx):
         self.model = m
         return v
 
+    def choose(self, k, what="choice"):
+        """a non-numeric choice among k alternatives, explored like an integer concretisation"""
+        if k <= 1:
+            return 0
+        self._nchoice = getattr(self, "_nchoice", 0) + 1
+        c = z3.Int(f"__choice{self._nchoice}")
+        self.assume_z3(z3.And(c >= 0, c < k))
+        return self.choose_int(c, 0, k - 1)
+
     def note_divisor(self, dz):
         if z3.is_rational_value(dz) or z3.is_int_value(dz):
             return
@@ -1327,6 +1336,9 @@ class ConcCtx(BaseCtx):
 
     def note_divisor(self, dz):
         pass
+
+    def choose(self, k, what="choice"):
+        return 0
 
     def observe_float(self, key, value):
         self.observe(key, value)
